@@ -88,4 +88,11 @@ def checkedAdd (a b : Nat) : Option Nat :=
 def checkedSub (a b : Nat) : Option Nat :=
   if subIsChecked then (if b ≤ a then some (a - b) else none) else some ((a + U256 - b) % U256)
 
+/-- `ant-cli/src/utils.rs::collect_upload_summary`: the events consumed by the `select!` loop before the
+completion signal wins, then the events drained afterwards. Each consumed event either adds to the running
+total (`+=`, wrapping at 2^256 like every `Amount` `+`) or — if an arm assigns — replaces it. -/
+def cliSummary (loopEvents drainEvents : List Nat) : Nat :=
+  let step := fun (acc x : Nat) => if cliSummaryAccumulates then (acc + x) % U256 else x % U256
+  drainEvents.foldl step (loopEvents.foldl step 0)
+
 end SafeNet.Amount
